@@ -52,6 +52,35 @@ fn algebra<S: Sc>(d: &mut Draw) -> Outcome {
     ensure_eq!(-p, f(&|i| -rp[i]), "neg", "-p");
     ensure_eq!(p * a, f(&|i| rp[i] * a), "mul-scalar", "p * a");
     ensure_eq!(p / k, f(&|i| rp[i] / k), "div-scalar", "p / k");
+    // the same operations through their other entry points: operands by reference, in place
+    ensure_eq!(&p + &q, f(&|i| rp[i] + rq_[i]), "add-ref-ref", "&p + &q");
+    ensure_eq!(p + &q, f(&|i| rp[i] + rq_[i]), "add-val-ref", "p + &q");
+    ensure_eq!(&p + q, f(&|i| rp[i] + rq_[i]), "add-ref-val", "&p + q");
+    ensure_eq!(&p - &q, f(&|i| rp[i] - rq_[i]), "sub-ref-ref", "&p - &q");
+    ensure_eq!(p - &q, f(&|i| rp[i] - rq_[i]), "sub-val-ref", "p - &q");
+    ensure_eq!(&p - q, f(&|i| rp[i] - rq_[i]), "sub-ref-val", "&p - q");
+    ensure_eq!(-&p, f(&|i| -rp[i]), "neg-ref", "-&p");
+    ensure_eq!(&p * a, f(&|i| rp[i] * a), "mul-scalar-ref", "&p * a");
+    ensure_eq!(&p / k, f(&|i| rp[i] / k), "div-scalar-ref", "&p / k");
+    let mut m = p;
+    m += q;
+    ensure_eq!(m, f(&|i| rp[i] + rq_[i]), "add_assign", "p += q");
+    let mut m = p;
+    m -= q;
+    ensure_eq!(m, f(&|i| rp[i] - rq_[i]), "sub_assign", "p -= q");
+    let mut m = p;
+    m *= a;
+    ensure_eq!(m, f(&|i| rp[i] * a), "mul_assign-scalar", "p *= a");
+    let mut m = p;
+    m /= k;
+    ensure_eq!(m, f(&|i| rp[i] / k), "div_assign-scalar", "p /= k");
+    // distributivity with the sum formed in place
+    let mut sum = q;
+    sum += r;
+    ensure_eq!(p * sum, p * q + p * r, "distributive-in-place-sum", "p(q += r) = pq + pr");
+    // conjugate twice, from_sv / new agree on the component order
+    ensure_eq!(p.conjugate().conjugate(), p, "conjugate-involution", "conj(conj(p)) = p");
+    ensure_eq!(Quaternion::from_sv(rp[0], Vector3::new(rp[1], rp[2], rp[3])), Quaternion::new(rp[0], rp[1], rp[2], rp[3]), "from_sv-vs-new", "from_sv(s, v) = new(s, x, y, z)");
     // folds
     let list = [p, q, r];
     let s: Quaternion<S> = list.iter().sum();
@@ -62,6 +91,10 @@ fn algebra<S: Sc>(d: &mut Draw) -> Outcome {
     ensure_eq!(m, ((one * p) * q) * r, "product-refs", "Product over references");
     let m: Quaternion<S> = list.iter().cloned().product();
     ensure_eq!(m, ((one * p) * q) * r, "product-values", "Product over values");
+    ensure_eq!(list[..1].iter().sum::<Quaternion<S>>(), p, "sum-single", "sum of one quaternion");
+    ensure_eq!(list[..1].iter().product::<Quaternion<S>>(), p, "product-single", "product of one quaternion");
+    ensure_eq!(list[..0].iter().sum::<Quaternion<S>>(), zero, "sum-empty", "empty sum");
+    ensure_eq!(list[..0].iter().product::<Quaternion<S>>(), one, "product-empty", "empty product");
     // inverse
     let n2 = qnorm2(&rp);
     if n2 != S::zero() {
@@ -164,6 +197,19 @@ fn product_f64(d: &mut Draw) -> Outcome {
             ensure!((r[0] - 1.0).abs() <= 32.0 * f64::EPSILON && r[1].abs() <= 32.0 * f64::EPSILON && r[2].abs() <= 32.0 * f64::EPSILON && r[3].abs() <= 32.0 * f64::EPSILON,
                 "inverse-f64", "{} = {:?} for q = {:?} (|q|^2 = {:e})", name, r, q, qnorm2(&q));
         }
+    }
+    // scalar on the left (primitive floats only) and the remaining scalar forms: exact per component
+    let k = if class == 2 { 1.5 } else { d.f64_slog(1e-3, 1e3) };
+    let left = rq(&(k * cp));
+    let leftr = rq(&(k * &cp));
+    let ldiv = rq(&(k / cp));
+    let rem = rq(&(cp % k));
+    let mut inplace = cp;
+    inplace %= k;
+    for i in 0..4 {
+        ensure!(left[i].to_bits() == (k * p[i]).to_bits() && leftr[i].to_bits() == left[i].to_bits(), "scalar-left-mul-f64", "component {} of k * p is {:e}, k * p_i = {:e}", i, left[i], k * p[i]);
+        ensure!(ldiv[i].to_bits() == (k / p[i]).to_bits(), "scalar-left-div-f64", "component {} of k / p is {:e}, k / p_i = {:e}", i, ldiv[i], k / p[i]);
+        ensure!(rem[i].to_bits() == (p[i] % k).to_bits() && rq(&inplace)[i].to_bits() == rem[i].to_bits(), "rem-f64", "component {} of p % k is {:e}, p_i % k = {:e}", i, rem[i], p[i] % k);
     }
     pass(["generic", "near-one", "wide-magnitudes", "unit"][class as usize], true)
 }
